@@ -3,7 +3,7 @@
    list of integers.  Both the extracted OCaml driver and the coqc/vm_compute
    cross-check call exactly this function.  Byte strings inside [args] are
    length-prefixed. *)
-From Cam Require Import Outcome Bytes Chunks Cmd Ack Event Stream Payload.
+From Cam Require Import Outcome Bytes Chunks Cmd Ack Event Stream Payload Mem BitField RegCodec.
 
 Definition BAD_ARGS : list Z := [-99].
 
@@ -73,9 +73,45 @@ Definition d_c11 (code : Z) (args : list Z) : list Z :=
   | _, _ => BAD_ARGS
   end.
 
+(* register histories: addr len endian base nnodes (kind sign lsb msb)* imglen image... then
+   length-prefixed operations *)
+Fixpoint take_nodes (k : nat) (l : list Z) : list nodecfg * list Z :=
+  match k, l with
+  | S k', kind :: sign :: lsb :: msb :: r =>
+    let '(ns, rest) := take_nodes k' r in
+    ({| n_kind := kind; n_sign := sign; n_lsb := lsb; n_msb := msb |} :: ns, rest)
+  | _, _ => ([], l)
+  end.
+
+Fixpoint split_ops (fuel : nat) (l : list Z) : list (list Z) :=
+  match fuel, l with
+  | S f, k :: r => firstn (Z.to_nat k) r :: split_ops f (skipn (Z.to_nat k) r)
+  | _, _ => []
+  end.
+
+Definition d_reg (code : Z) (args : list Z) : list Z :=
+  match code, args with
+  | 101, addr :: len :: endian :: base :: nn :: rest =>
+    let '(nodes, r1) := take_nodes (Z.to_nat nn) rest in
+    match r1 with
+    | il :: r2 =>
+      let image := firstn (Z.to_nat il) r2 in
+      let ops := split_ops (length r2) (skipn (Z.to_nat il) r2) in
+      run_history {| r_addr := addr; r_len := len; r_endian := endian |} nodes base image ops
+    | _ => BAD_ARGS
+    end
+  (* pure BitMask functions: lsb msb sign reg / old v *)
+  | 102, [l; m; sg; reg] => [bm_mask l m; bm_min l m sg; bm_max l m sg; bm_apply l m sg reg]
+  | 103, [l; m; sg; old; v] => show_outcome (fun z => [z]) (bm_masked l m sg old v)
+  | 104, [b] => [widen b]
+  | 105, [b] => [narrow b]
+  | _, _ => BAD_ARGS
+  end.
+
 Definition dispatch (code : Z) (args : list Z) : list Z :=
   if (1000 <? code) && (code <? 1100) then d_c10 code args
   else if (900 <? code) && (code <? 1000) then d_c09 code args
   else if (800 <? code) && (code <? 900) then d_c08 code args
   else if (1100 <? code) && (code <? 1200) then d_c11 code args
+  else if (100 <? code) && (code <? 200) then d_reg code args
   else BAD_ARGS.
